@@ -282,6 +282,108 @@ def _refresh_check(run, fi, rcv, cls, mutates, stores_dirty=True):
         run.ok(key, where=fi.where())
 
 
+def rule_nodeedit(run):
+    run.rule('NODEEDIT', "a function that removes a node from a column's node list also removes the column from that node's "
+             'column set; a function that re-points an end of a connection to another column re-keys the connection dictionary', floor=1)
+    prog = run.prog
+    cls = prog.cls('mulgrids', 'mulgrid')
+    found = 0
+    for name, fi in sorted(cls.methods.items()):
+        dels = [n for n in walk_no_nested(fi.node) if isinstance(n, ast.Delete) and any(
+            isinstance(t, ast.Subscript) and isinstance(t.value, ast.Attribute) and t.value.attr == 'node' and not is_self_attr(t.value)
+            for t in n.targets)]
+        rem = [c for c in walk_no_nested(fi.node) if isinstance(c, ast.Call) and call_name(c) in ('remove', 'pop') and
+               isinstance(c.func.value, ast.Attribute) and c.func.value.attr == 'node' and not is_self_attr(c.func.value)]
+        for d in dels + rem:
+            found += 1
+            owner = norm(d.targets[0].value.value) if isinstance(d, ast.Delete) else norm(d.func.value.value)
+            back = [c for c in walk_no_nested(fi.node) if isinstance(c, ast.Call) and call_name(c) in ('remove', 'discard') and
+                    isinstance(c.func.value, ast.Attribute) and c.func.value.attr == 'column' and c.args and norm(c.args[0]) == owner]
+            key = 'mulgrid.%s :: node removed from %s.node' % (name, owner)
+            if back: run.ok(key, where=fi.where(d))
+            else:
+                run.violated(key, 'a node is removed from %s.node but %s stays in that node\'s .column set: the node still claims a column that '
+                             'does not use it (boundary traversal and point searches then fail on it)' % (owner, owner), where=fi.where(d))
+        # connection end re-pointed
+        rp = [n for n in walk_no_nested(fi.node) if isinstance(n, ast.Assign) and isinstance(n.targets[0], ast.Subscript) and
+              isinstance(n.targets[0].value, ast.Attribute) and n.targets[0].value.attr == 'column' and
+              isinstance(n.targets[0].value.value, ast.Name) and n.targets[0].value.value.id != 'self']
+        if rp:
+            found += 1
+            rekey = any(isinstance(x, ast.Assign) and any(norm(t) == 'self.connection' or
+                                                           (isinstance(t, ast.Subscript) and norm(t.value) == 'self.connection') for t in x.targets)
+                        for x in walk_no_nested(fi.node))
+            key = 'mulgrid.%s :: connection end re-pointed' % name
+            if rekey: run.ok(key, where=fi.where(rp[0]))
+            else:
+                run.violated(key, '`%s` gives a connection another column, but self.connection is not re-keyed: the connection is still filed '
+                             'under the names of its old pair of columns' % norm(rp[0]), where=fi.where(rp[0]))
+    if not found: run.unknown('NODEEDIT :: sites', 'no node-list edit found (split_column is expected to have one)')
+
+
+def rule_midonce(run):
+    run.rule('MIDONCE', 'refine(): a mid-side node is created at most once per side - the loop over boundary sides skips sides '
+             'that already have one', floor=1)
+    prog = run.prog
+    fi = prog.func('mulgrids.mulgrid.refine')
+    # the loop: for i, corner in enumerate(col.node): ... if (corner in bdy) and (next_corner in bdy): create_mid_node(...)
+    ifs = [n for n in ast.walk(fi.node) if isinstance(n, ast.If) and 'in bdy' in norm(n.test) and
+           any(isinstance(c, ast.Call) and call_name(c) == 'create_mid_node' for c in ast.walk(n))]
+    key = 'mulgrid.refine :: boundary mid-side nodes only where none exists yet'
+    if len(ifs) != 1:
+        run.unknown(key, 'boundary-side loop not found', where=fi.where()); return
+    t = norm(ifs[0])
+    guarded = 'not in sidenodes' in t or 'connection_with_nodes' in t
+    if guarded: run.ok(key, where=fi.where(ifs[0]))
+    else:
+        run.violated(key, 'a side is taken to lie on the grid boundary when both its corners are boundary nodes (`%s`); an interior side '
+                     'between two boundary corners (any side across an N x 1 strip) already received a mid-side node from its connection, '
+                     'gets a second one here, and the first is left as an orphan node' % norm(ifs[0].test), where=fi.where(ifs[0]))
+
+
+def rule_itermut(run):
+    run.rule('ITERMUT', 'no loop or comprehension iterates a by-name list of the geometry/grid itself (or an alias of it) while its '
+             'body adds or deletes elements of that list', floor=1)
+    prog = run.prog
+    from ..containers import PairAnalysis, owner_receivers
+    pa = PairAnalysis(prog)
+    LISTS = {'mulgrid': ['nodelist', 'columnlist', 'layerlist', 'connectionlist', 'welllist'],
+             't2grid': ['blocklist', 'connectionlist', 'rocktypelist'], 't2data': ['generatorlist']}
+    MUT = {'columnlist': ['add_column', 'delete_column', 'subdivide_column', 'triangulate_column', 'decompose_column', 'split_column'],
+           'nodelist': ['add_node', 'delete_node'], 'layerlist': ['add_layer', 'delete_layer'],
+           'connectionlist': ['add_connection', 'delete_connection', 'delete_column', 'delete_block'], 'welllist': ['add_well', 'delete_well'],
+           'blocklist': ['add_block', 'delete_block'], 'rocktypelist': ['add_rocktype', 'delete_rocktype'],
+           'generatorlist': ['add_generator', 'delete_generator']}
+    nsites = 0
+    for fi in prog.all_functions(['mulgrids', 't2grids', 't2data']):
+        if fi.cls is None or fi.cls.name not in LISTS: continue
+        alias = {}
+        for n in walk_no_nested(fi.node):
+            if isinstance(n, ast.Assign) and isinstance(n.targets[0], ast.Name) and isinstance(n.value, ast.Attribute) and \
+               dotted(n.value.value) == 'self' and n.value.attr in LISTS[fi.cls.name]:
+                alias[n.targets[0].id] = n.value.attr
+        its = []
+        for n in walk_no_nested(fi.node):
+            if isinstance(n, ast.For): its.append((n.iter, n.body, n))
+            if isinstance(n, (ast.ListComp, ast.GeneratorExp, ast.SetComp, ast.DictComp)):
+                for g in n.generators: its.append((g.iter, [ast.Expr(value=n)], n))
+        for it, body, node in its:
+            lst = None
+            if isinstance(it, ast.Attribute) and dotted(it.value) == 'self' and it.attr in LISTS[fi.cls.name]: lst = it.attr
+            elif isinstance(it, ast.Name) and it.id in alias: lst = alias[it.id]
+            if lst is None: continue
+            muts = [c for b in body for c in ast.walk(b) if isinstance(c, ast.Call) and isinstance(c.func, ast.Attribute)
+                    and dotted(c.func.value) == 'self' and c.func.attr in MUT.get(lst, [])]
+            if not muts: continue
+            nsites += 1
+            key = '%s :: iterates self.%s while calling %s' % (fi.short, lst, muts[0].func.attr)
+            run.violated(key, 'the %s runs over self.%s itself%s while its body calls %s(), which appends to / removes from that list: '
+                         'elements are skipped (or visited twice)' % ('loop' if isinstance(node, ast.For) else 'comprehension', lst,
+                                                                       ' (through the alias `%s`)' % norm(it) if isinstance(it, ast.Name) else '',
+                                                                       muts[0].func.attr), where=fi.where(node))
+    run.ok('ITERMUT :: scan', {'violating_sites': nsites, 'functions_scanned': sum(1 for _ in prog.all_functions(['mulgrids', 't2grids', 't2data']))})
+
+
 def rule_namekey(run):
     namekey_rule(run, 'mulgrids', 'mulgrid', floor=2)
 
@@ -295,5 +397,8 @@ def check(run):
     run.guarded('NBRSYM', rule_nbrsym)
     run.guarded('COUPLE', rule_couple)
     run.guarded('REFRESH', rule_refresh)
+    run.guarded('NODEEDIT', rule_nodeedit)
+    run.guarded('MIDONCE', rule_midonce)
+    run.guarded('ITERMUT', rule_itermut)
     run.guarded('NAMEKEY', rule_namekey)
     run.guarded('REKEY', rule_rekey10)
